@@ -6,6 +6,7 @@ func init() {
 	vfRegister("VF_C14_resolve", VF_C14_resolve)
 	vfRegister("VF_C14_names", VF_C14_names)
 	vfRegister("VF_C14_register", VF_C14_register)
+	vfRegister("VF_C14_distinct", VF_C14_distinct)
 }
 
 const (
@@ -112,4 +113,21 @@ func VF_C14_register() {
 		vfAssert(strings.Contains(err.Error(), vfQuote(b)), "diagnostic names the alias")
 	}
 	vfReach("C14_register")
+}
+
+// VF_C14_distinct: without any alias, longer paths (several segments, version
+// suffixes, dots and dashes): two references share a local name iff they are
+// the same package, and a third use keeps the names handed out before.
+func VF_C14_distinct() {
+	im := New()
+	ln := vfBound("c14.long", 6, 9)
+	r1, r2 := vfStr("r1", ln), vfStr("r2", ln)
+	vfAssume(vfInRe(r1, docPath) && vfInRe(r2, docPath))
+	n1, n2 := im.Alias(r1), im.Alias(r2)
+	vfObserve("locals", n1+" "+n2)
+	vfAssert((r1 == r2) == (n1 == n2), "equal packages share a local name, different packages never do")
+	vfAssert(vfInRe(n1, docLocal) && vfInRe(n2, docLocal), "local names are Go identifiers")
+	vfAssert(im.Alias(r1) == n1 && im.Alias(r2) == n2, "a name handed out stays")
+	// (the import block itself is VF_C14_names' subject: its sort makes long symbolic paths expensive)
+	vfReach("C14_distinct")
 }
